@@ -15,6 +15,7 @@ for sd in "${seeds[@]}"; do
     C07-3) checks="C07 C11";;
     C02-3) checks="C02 C03";;
     C07-4) checks="C02";;
+    C05-5) checks="C04";;
     C11-4) checks="C11 C05";;
   esac
   for c in $checks; do
